@@ -90,7 +90,15 @@ class LocalLink:
         # Send the data to the first controller with a matching address
         if transport == core.PhysicalTransport.LE:
             destination_controller = self.find_le_controller(destination_address)
-            source_address = sender_controller.random_address
+            # The receiver knows the sender by the address it connected with
+            source_address = next(
+                (
+                    connection.self_address
+                    for connection in sender_controller.le_connections.values()
+                    if connection.peer_address == destination_address
+                ),
+                sender_controller.random_address,
+            )
         elif transport == core.PhysicalTransport.BR_EDR:
             destination_controller = self.find_classic_controller(destination_address)
             source_address = sender_controller.public_address
